@@ -11,7 +11,7 @@ use chess::move_generator::MoveGenerator;
 use rayon::prelude::*;
 use serde_json::{json, Value};
 
-pub const RULE: &str = "for the tables compiled into this build: every square x EVERY subset of the relevant blocker mask (inner ray squares) for the rook (102,400 cases) and the bishop (5,248 cases), enumerated completely with the carry-rippler, blockers placed as enemy knights, each also with variants adding enemy pieces on the ray-end edge squares and off the rays; queens on every square with generated occupancies; knights and kings on all 64 squares alone and with generated own/enemy neighbours. Observed through MoveGenerator::get_attack_targets on a board holding the single piece under test for its colour (both colours are used). Oracle: ray walking in (file, rank) coordinates up to and including the first occupied square; L-shaped / adjacent offsets computed in coordinates (no bit shifts). Builds: N in-process runs of the build script's magic search (precompile::magic::find_magics::find_and_write_all_magics) are parsed and checked with the documented index formula offset + ((occ & mask) * magic >> shift): mask == inner rays, filling by ray walking is collision-free, segments do not overlap, declared table size matches; the thorough tier also forces a clean rebuild so the compiled tables come from a new draw. Non-trivial = at least one blocker on a ray or an edge/corner square; distinct = (piece, square, occupancy).";
+pub const RULE: &str = "for the tables compiled into this build: every square x EVERY subset of the relevant blocker mask (inner ray squares) for the rook (102,400 cases) and the bishop (5,248 cases), enumerated completely with the carry-rippler, blockers placed as enemy pieces of every kind (pawn, knight, bishop, rook, queen and at most one king, chosen per square), each also with variants adding enemy pieces on the ray-end edge squares and off the rays; queens on every square with generated occupancies; knights and kings on all 64 squares alone and with generated own/enemy neighbours. Observed through MoveGenerator::get_attack_targets on a board holding the single piece under test for its colour (both colours are used). Oracle: ray walking in (file, rank) coordinates up to and including the first occupied square; L-shaped / adjacent offsets computed in coordinates (no bit shifts). Builds: N in-process runs of the build script's magic search (precompile::magic::find_magics::find_and_write_all_magics) are parsed and checked with the documented index formula offset + ((occ & mask) * magic >> shift): mask == inner rays, filling by ray walking is collision-free, segments do not overlap, declared table size matches; the thorough tier also forces a clean rebuild so the compiled tables come from a new draw. Non-trivial = at least one blocker on a ray or an edge/corner square; distinct = (piece, square, occupancy).";
 
 fn ray_attacks(sq: u8, occ: u64, dirs: &[(i8, i8)]) -> u64 {
     let mut out = 0u64;
@@ -74,12 +74,27 @@ fn lone_piece_board(piece: Piece, white: bool, sq: u8, enemy_occ: u64, own_occ: 
     let (own, enemy) = if white { (Color::White, Color::Black) } else { (Color::Black, Color::White) };
     let mut b = Board::new();
     b.put(bb(sq), piece, own).unwrap();
+    // blockers of every kind (what stands on a square must not matter), at most one enemy king
+    let mut king_used = false;
     for s in 0..64u8 {
         if s == sq {
             continue;
         }
         if enemy_occ >> s & 1 == 1 {
-            b.put(bb(s), Piece::Knight, enemy).unwrap();
+            let h = (enemy_occ ^ (s as u64).wrapping_mul(0x9E3779B97F4A7C15)).wrapping_mul(0xD6E8FEB86659FD93) >> 61;
+            let back = rank_of(s) == 0 || rank_of(s) == 7;
+            let kind = match h % 6 {
+                0 if !back => Piece::Pawn,
+                1 => Piece::Bishop,
+                2 => Piece::Rook,
+                3 => Piece::Queen,
+                4 if !king_used => {
+                    king_used = true;
+                    Piece::King
+                }
+                _ => Piece::Knight,
+            };
+            b.put(bb(s), kind, enemy).unwrap();
         }
     }
     let _ = own_occ;
